@@ -224,5 +224,52 @@ class Sequences:
             shutil.rmtree(top, ignore_errors=True)
 
 
+class FromJson:
+    """CompileCommand.from_json / CompilationDatabase.from_json on every subset of the five members (values are
+    distinct sentinels, so a swapped or defaulted member shows).  Complete over presence/absence; values opaque."""
+    proved = False
+    role = "refuter / engine cross-check for CompileCommand.from_json (every presence pattern of the 5 members)"
+    KEYS = ("file", "directory", "arguments", "command", "output")
+    VALS = {"file": "f.c", "directory": "/d", "arguments": ["cc", "-c", "f.c"], "command": "cc -c f.c -DX", "output": "f.o"}
+
+    def bound(self, tier):
+        return "all 32 presence patterns of {file, directory, arguments, command, output}, via both from_json entry points"
+
+    def inputs(self, tier, seed):
+        for m in range(32):
+            yield {"present": [k for i, k in enumerate(self.KEYS) if m >> i & 1]}
+
+    def nontrivial(self, inp):
+        return "file" in inp["present"]
+
+    def check(self, inp):
+        import codebasin
+        obj = {k: self.VALS[k] for k in inp["present"]}
+        if "file" not in obj:
+            return None                       # outside the precondition (the schema requires `file`)
+        must_raise = "arguments" not in obj and "command" not in obj
+        for how in ("CompileCommand.from_json", "CompilationDatabase.from_json"):
+            try:
+                if how.startswith("CompileCommand"):
+                    c = codebasin.CompileCommand.from_json(dict(obj))
+                else:
+                    c = list(codebasin.CompilationDatabase.from_json([dict(obj)]))[0]
+            except ValueError as e:
+                if must_raise:
+                    continue
+                return {"expected": "a CompileCommand", "observed": f"ValueError: {e}", "via": how}
+            if must_raise:
+                return {"expected": "ValueError (neither arguments nor command)", "observed": "accepted", "via": how}
+            got = {"file": c._filename, "directory": c._directory, "arguments": c._arguments,
+                   "command": c._command, "output": c._output}
+            want = {k: obj.get(k) for k in self.KEYS}
+            if got != want:
+                return {"expected": want, "observed": got, "via": how}
+            if (c.filename, c.directory, c.output) != (want["file"], want["directory"], want["output"]):
+                return {"expected": want, "observed": [c.filename, c.directory, c.output], "via": how + " properties"}
+        return None
+
+
 TARGETS = {"codebasin.config:load_database": Resolve(),
-           "codebasin.config:load_database#sequences": Sequences()}
+           "codebasin.config:load_database#sequences": Sequences(),
+           "codebasin:CompileCommand.from_json": FromJson()}
